@@ -115,9 +115,9 @@ MC_DIR_OF = {"C05": "C03", "C06": "C07", "C09": "C08", "C15": "C14"}
 
 def run_tlc(pid, module, cfg=None, workers=None, simulate=None, depth=None, env=None, timeout=3600,
             extra=None, heap="8g", stack="512m", continue_=False, deque=False, coverage=False, name=None,
-            keep_lines=True, line_cb=None, seed_=None):
+            keep_lines=True, line_cb=None, seed_=None, mcdir=None):
     """Run TLC on mc/<pid>/<module>.tla with config cfg (default <module>.cfg)."""
-    d = os.path.join(MC, MC_DIR_OF.get(pid, pid))
+    d = os.path.join(MC, mcdir or MC_DIR_OF.get(pid, pid))
     cfg = cfg or (module + ".cfg")
     name = name or module
     meta = os.path.join(workdir(pid), "tlc_" + name)
